@@ -31,6 +31,10 @@ type C09Payload struct {
 	Spec     *spec.Spec  `json:"spec"`
 	SpecYAML string      `json:"specYAML"`
 	Cap      int         `json:"cap"`
+	// discriminated / undiscriminated oneOf inside the body schema (as for the JSON properties)
+	DiscProp    string     `json:"discProp,omitempty"`
+	VariantKeys [][]string `json:"variantKeys,omitempty"`
+	Ambiguous   bool       `json:"ambiguous,omitempty"`
 }
 
 // value domains of §11 per location
@@ -139,7 +143,7 @@ func c09(p *Pkg, _ *Pkg, payload json.RawMessage, res *Result) {
 	doms := make([][]reflect.Value, pt.NumField())
 	for i := 0; i < pt.NumField(); i++ {
 		f := pt.Field(i)
-		e := &valEnum{p: p, cap: pl.Cap}
+		e := &valEnum{p: p, cap: pl.Cap, discProp: pl.DiscProp, variantKeys: pl.VariantKeys}
 		if ss, ok := groups[f.Name]; ok {
 			e.strings = ss
 			e.requiredNonEmpty = true
@@ -250,6 +254,14 @@ func c09(p *Pkg, _ *Pkg, payload json.RawMessage, res *Result) {
 				continue
 			}
 			if d := firstDiff(v.Field(i), parsed.Field(i), "."+f.Name); d != "" && diff == "" {
+				if f.Name == "Body" && pl.Ambiguous {
+					// undiscriminated oneOf: a document valid for an earlier variant may come back as that variant
+					be := &valEnum{p: p}
+					if be.earlierVariant(v.Field(i), parsed.Field(i)) {
+						res.Count("ambiguous-oneof", 1)
+						continue
+					}
+				}
 				diff = d
 			}
 		}
